@@ -47,6 +47,9 @@ class Ctx:
         return os.path.join(self.scratch, *p)
 
     def cleanup(self):
+        if os.environ.get("VERIF_KEEP"):        # debugging aid: keep the scratch directory (traces, summaries)
+            print("scratch kept: %s" % self.scratch, flush=True)
+            return
         shutil.rmtree(self.scratch, ignore_errors=True)
 
     def log(self, *a):
